@@ -386,6 +386,33 @@ def foldTelegrams (f : Ctx → Telegram → Bool → Res) : Ctx → List (Telegr
   | c, [] => .ok c
   | c, (t, l) :: rest => (f c t l).bind fun c' => foldTelegrams f c' rest
 
+/-- Per-telegram callback of `do_listen_token`'s `receive_all_telegrams`, after `mark_rx`. -/
+def listenTelegramCore (c : Ctx) (t : Telegram) (isLast : Bool) : Res :=
+  if !c.s.online then .ok c else
+  match c.s.st with
+  | .listenToken statusReq coll =>
+    let ts := c.s.p.address
+    if t.sourceAddress.map UInt8.toNat = some ts then
+      let coll' := coll + 1
+      if coll' = 1 then .ok (upd c fun s => { s with st := .listenToken statusReq coll' })
+      else .ok (upd c fun s => s.setOffline)
+    else
+      match t with
+      | .token da sa => .ok (upd c fun s => { s with ring := s.ring.witness sa.toNat da.toNat })
+      | .data h _ =>
+        match h.fc with
+        | .request _ .fdlStatus =>
+          if h.da.toNat = ts ∧ isLast then
+            .ok (upd c fun s => { s with st := .listenToken (some h.sa.toNat) coll })
+          else .ok c
+        | _ => .ok c
+      | .sc => .ok c
+  | _ => .panic "get_listen_token_collision_count unreachable"
+
+/-- Per-telegram callback of `do_listen_token`'s `receive_all_telegrams`. -/
+def listenTelegram (now : Int) (c : Ctx) (t : Telegram) (isLast : Bool) : Res :=
+  listenTelegramCore (upd c fun s => markRx s now) t isLast
+
 /-- `do_listen_token`. -/
 def doListenToken (c : Ctx) (now : Int) : Res :=
   match c.s.st with
@@ -409,29 +436,7 @@ def doListenToken (c : Ctx) (now : Int) : Res :=
       match receiveAll c.rx with
       | .panic => .panic "receive_all_telegrams"
       | .hang => .panic "receive_all_telegrams hang"
-      | .done rx' calls _ =>
-        foldTelegrams (fun c t isLast =>
-          let c := upd c fun s => markRx s now
-          if !c.s.online then .ok c else
-          match c.s.st with
-          | .listenToken statusReq coll =>
-            let ts := c.s.p.address
-            if t.sourceAddress.map UInt8.toNat = some ts then
-              let coll' := coll + 1
-              if coll' = 1 then .ok (upd c fun s => { s with st := .listenToken statusReq coll' })
-              else .ok (upd c fun s => s.setOffline)
-            else
-              match t with
-              | .token da sa => .ok (upd c fun s => { s with ring := s.ring.witness sa.toNat da.toNat })
-              | .data h _ =>
-                match h.fc with
-                | .request _ .fdlStatus =>
-                  if h.da.toNat = ts ∧ isLast then
-                    .ok (upd c fun s => { s with st := .listenToken (some h.sa.toNat) coll })
-                  else .ok c
-                | _ => .ok c
-              | .sc => .ok c
-          | _ => .panic "get_listen_token_collision_count unreachable") { c with rx := rx' } calls
+      | .done rx' calls _ => foldTelegrams (listenTelegram now) { c with rx := rx' } calls
     | _ => .panic "unreachable"
   | _ => .panic "debug_assert_state!(ListenToken)"
 
@@ -565,34 +570,41 @@ def doAwaitDataResponse (c : Ctx) (now : Int) : Res :=
       else .ok c
   | _ => .panic "debug_assert_state!(AwaitDataResponse)"
 
+/-- Tail of `do_pass_token`: transmit the token to NS, record the own pass in the LAS, then supervise
+the pass (or keep the token when alone). -/
+def passTokenOn (c : Ctx) (now : Int) (att : Attempt) : Res :=
+  let ns := c.s.ring.ns
+  let ts := c.s.p.address
+  (transmit c now (sendToken (UInt8.ofNat ns) (UInt8.ofNat ts))).bind fun c =>
+  let c := upd c fun s => { s with ring := s.ring.witness ts ns }
+  -- note: `mark_tx` is applied last in the code and uses only `now`; order is immaterial
+  if c.s.ring.ns = ts then tr c (fun s => toUseToken s ⟨now, none⟩) "transition_use_token"
+  else tr c (fun s => toCheckTokenPass s att) "transition_check_token_pass"
+
+/-- GAP bookkeeping of `do_pass_token` (`do_gap == Yes`): count rotations while waiting, start a new
+sweep behind the own address when the wait is over, otherwise advance the running sweep. -/
+def gapAdvance (s : Station) : Option GapState :=
+  match s.gap with
+  | .waiting rot => if rot > s.p.gapWait then nextGap s s.p.address else some (.waiting (rot + 1))
+  | .doPoll cur => nextGap s cur
+
 /-- `do_pass_token`. -/
 def doPassToken (c : Ctx) (now : Int) : Res :=
   match c.s.st with
   | .passToken doGap att =>
-    let (s', waiting) := waitSyncPause c.s now
-    let c := { c with s := s' }
-    if waiting then .ok c else
-    let passOn (c : Ctx) : Res :=
-      let ns := c.s.ring.ns
-      let ts := c.s.p.address
-      (transmit c now (sendToken (UInt8.ofNat ns) (UInt8.ofNat ts))).bind fun c =>
-      let c := upd c fun s => { s with ring := s.ring.witness ts ns }
-      -- note: `mark_tx` is applied last in the code and uses only `now`; order is immaterial
-      if c.s.ring.ns = ts then tr c (fun s => toUseToken s ⟨now, none⟩) "transition_use_token"
-      else tr c (fun s => toCheckTokenPass s att) "transition_check_token_pass"
+    let sw := waitSyncPause c.s now
+    let c := { c with s := sw.1 }
+    if sw.2 then .ok c else
     if doGap then
-      let g? : Option GapState := match c.s.gap with
-        | .waiting rot => if rot > c.s.p.gapWait then nextGap c.s c.s.p.address else some (.waiting (rot + 1))
-        | .doPoll cur => nextGap c.s cur
-      match g? with
+      match gapAdvance c.s with
       | none => .panic "next_gap_poll overflow"
       | some g =>
         let c := upd c fun s => { s with gap := g }
         match transmitGapPoll c now with
         | (.panic s, _) => .panic s
         | (.ok c, some addr) => tr c (fun s => toAwaitStatus s addr) "transition_await_status_response"
-        | (.ok c, none) => passOn c
-    else passOn c
+        | (.ok c, none) => passTokenOn c now att
+    else passTokenOn c now att
   | _ => .panic "debug_assert_state!(PassToken)"
 
 /-- `do_await_status_response`. -/
@@ -637,6 +649,31 @@ def doCheckTokenPass (c : Ctx) (now : Int) : Res :=
           foldTelegrams (fun c t isLast => handleTelegram (upd c fun s => markRx s now) now t isLast) c rest
   | _ => .panic "debug_assert_state!(CheckTokenPass)"
 
+/-- Going online: `Offline | PassiveIdle → ListenToken` at the first poll. -/
+def pollStart (c : Ctx) : Res :=
+  match c.s.st with
+  | .offline | .passiveIdle => tr c toListenToken "transition_listen_token"
+  | _ => .ok c
+
+/-- The state dispatch of `poll_inner`. -/
+def dispatch (c : Ctx) (now : Int) : Res :=
+  match c.s.st with
+  | .offline => .panic "unreachable!()"
+  | .passiveIdle => .panic "todo!()"
+  | .listenToken .. => doListenToken c now
+  | .claimToken .. => doClaimToken c now 2
+  | .useToken .. => doUseToken c now
+  | .awaitData .. => doAwaitDataResponse c now
+  | .passToken .. => doPassToken c now
+  | .checkTokenPass .. => doCheckTokenPass c now
+  | .activeIdle .. => doActiveIdle c now
+  | .awaitStatus .. => doAwaitStatusResponse c now
+
+/-- `check_for_ongoing_transmision`: the PHY still transmits, or the predicted end of the own last
+transmission has not passed. -/
+def ongoing (c : Ctx) (now : Int) (phyTransmitting : Bool) : Bool :=
+  phyTransmitting || (match c.s.lastBusActivity with | some l => decide (now ≤ l) | none => false)
+
 /-- `poll_inner`. -/
 def pollInner (c : Ctx) (now : Int) (phyTransmitting : Bool) : Res :=
   if !c.s.online then
@@ -644,26 +681,11 @@ def pollInner (c : Ctx) (now : Int) (phyTransmitting : Bool) : Res :=
      | .offline => .ok c
      | _ => .panic "debug_assert!(state == Offline) while connectivity is Offline")
   else
-    let r : Res := match c.s.st with
-      | .offline | .passiveIdle => tr c toListenToken "transition_listen_token"
-      | _ => .ok c
-    r.bind fun c =>
-    -- check_for_ongoing_transmision
-    if phyTransmitting || (match c.s.lastBusActivity with | some l => decide (now ≤ l) | none => false) then
+    (pollStart c).bind fun c =>
+    if ongoing c now phyTransmitting then
       .ok (upd c fun s => markBusActivity s now)
     else
-      let c := upd c fun s => checkBusActivity s now c.rx.length
-      match c.s.st with
-      | .offline => .panic "unreachable!()"
-      | .passiveIdle => .panic "todo!()"
-      | .listenToken .. => doListenToken c now
-      | .claimToken .. => doClaimToken c now 2
-      | .useToken .. => doUseToken c now
-      | .awaitData .. => doAwaitDataResponse c now
-      | .passToken .. => doPassToken c now
-      | .checkTokenPass .. => doCheckTokenPass c now
-      | .activeIdle .. => doActiveIdle c now
-      | .awaitStatus .. => doAwaitStatusResponse c now
+      dispatch (upd c fun s => checkBusActivity s now c.rx.length) now
 
 /-- One `poll` / `poll_multi` call. -/
 def Station.poll (s : Station) (apps : Apps) (now : Int) (phyTransmitting : Bool) (rx : Bytes) : Res :=
